@@ -85,16 +85,17 @@ def r1(ctx, config="A"):
                 detail["discharged_by"] = d[0] + ": " + d[1][:200]
                 ctx.ok(rule, s.key, detail)
             continue
-        if s.key in table:
+        ent = TT.table_entry(table, s)
+        if ent is not None:
             stats["D6"] += 1
             used.add(s.key)
-            detail["discharged_by"] = "D6: " + table[s.key]
+            detail["discharged_by"] = "D6: " + ent
             ctx.ok(rule, s.key, detail)
             continue
         stats["open"] += 1
         ctx.fail(rule, s.key, "wire-derived value reaches %s without a dominating test (%s)" % (
             s.kind, "; ".join(X.render(e)[:100] for e, t in zip(s.tops, s.tainted) if t) or "control"),
-            s.loc, detail)
+            s.loc, detail, alt_keys=[s.okey])
     ctx.analysed["C04.R1" + ("" if config == "A" else "@" + config)] = {"entry_bodies": len(entries), "reachable_bodies": len(reach), "sinks": len(sinks),
                               "taint_iterations": T.iterations, "tainted_fields": sorted("%s.%s" % k for k in T.field_taint)[:60],
                               "discharge": stats}
